@@ -37,10 +37,11 @@ structure Fixes where
   fzomb : Bool := false    -- F1–F3: zombie accounting in `MultiState::draw`
   fstale : Bool := false   -- F26/F27: immediate reap only while the painted frame is in sync
   f31 : Bool := false      -- `MultiProgress::remove` repaints without the removed bar
+  fkept : Bool := false    -- F32: only rows that were painted are kept (and counted) as zombie rows
 deriving Repr, DecidableEq
 
 def Fixes.none : Fixes := {}
-def Fixes.all : Fixes := { f4 := true, f23 := true, f22 := true, fzomb := true, fstale := true, f31 := true }
+def Fixes.all : Fixes := { f4 := true, f23 := true, f22 := true, fzomb := true, fstale := true, f31 := true, fkept := true }
 
 /-- the repairs the repository contains now (`fix:` commits); the correspondence harness runs the model
 with exactly this value (`FX=current`), and the property theorems are stated for it -/
